@@ -163,7 +163,7 @@ class Case:
         self.drv.append("raw %d %d %d %d %d %s" % (rid, t, spf, frag["fo"], n, " ".join(hexs)))
         self.drv.append("def %s raw %d" % (name, rid))
         self.raws.append((rid, name, spf, frag["fo"], n))
-        self.fields.append((name, "raw", 0, spf, t < 8, t < 8))
+        self.fields.append((name, "raw", 0, spf, t < 8, t < 8, False, False))
         return name
 
     # ------------------------------------------------------------ scalars
@@ -192,7 +192,7 @@ class Case:
             if ci:
                 c = ci
         if rng.random() < 0.06:
-            return ("INDEX", "index", 0, 1, True, True)
+            return ("INDEX", "index", 0, 1, True, True, False, False)
         # prefer recent (deeper) fields half of the time
         if rng.random() < 0.5 and len(c) > 4:
             c = c[-4:]
@@ -318,7 +318,10 @@ class Case:
             d = "def %s linterp %s %d %s" % (name, a[0], rows, " ".join("%x %x" % (dbits(x), dbits(y)) for x, y in zip(xs, ys)))
         frag["lines"].append(line)
         self.drv.append(d)
-        self.fields.append((name, kind, depth, a[3], intish, safe))
+        ins = [a] + ([b] if two else []) + ([c] if kind == "lincom3" else [])
+        mixed = any(x[6] for x in ins) or any(x[3] != a[3] for x in ins)
+        hasmplex = kind == "mplex" or any(x[7] for x in ins)
+        self.fields.append((name, kind, depth, a[3], intish, safe, mixed, hasmplex))
 
     def build(self):
         rng = self.rng
@@ -376,6 +379,19 @@ class Case:
             n = rng.choice([0, 1, 1, 2, 3, 4, 5, 8, 13, 40, 100])
             rt = rng.choice([9, 9, 9, 9, 9, 9, 6, 7, 4])
             qs.append((f[0], rt, base, n))
+        # window-split independence: a window read in one call and in two, on fields whose inputs have
+        # different sample rates (sample k must not depend on where the window starts)
+        self.splits = []
+        mixed = [f for f in self.fields if f[6] and not f[7]] or [f for f in self.fields if f[6]]
+        for _ in range(3 if mixed else 0):
+            f = rng.choice(mixed)
+            s = rng.choice([0, 1, 2, 3, 5, rng.randint(0, 25)])
+            n = rng.randint(2, 14)
+            k = rng.randint(1, n - 1)
+            rt = rng.choice([9, 9, 9, 6])
+            i0 = len(qs)
+            qs += [(f[0], rt, s, n), (f[0], rt, s, k), (f[0], rt, s + k, n - k)]
+            self.splits.append((i0, i0 + 1, i0 + 2, k))
         return qs
 
 
@@ -588,9 +604,34 @@ def judge(chk, cases, stats, exe=None):
             if True:
                 chk.violation("getdata/crash/sequence", "a sequence of gd_getdata calls crashes the process although no single call does\n" + c.format_text(),
                               {"kind": "crash", "format": c.format_text(), "queries": c.qs})
+        # window-split independence on the implementation itself
+        if len(getattr(c, "res", [])) == len(c.qs):
+            for (i0, i1, i2, k) in getattr(c, "splits", []):
+                (qw, W, _, _, tw), (qa, Aa, _, _, ta), (qb, Bb, _, _, tb) = c.res[i0], c.res[i1], c.res[i2]
+                if any(x.get("crash") or x["err"] for x in (W, Aa, Bb)) or any(t in ("mplexrate", "mplexneg", "mplexseek") for t in tw + ta + tb):
+                    continue
+                stats["splits"] = stats.get("splits", 0) + 1
+                if Aa["count"] == k:
+                    exp_count, exp_vals = k + Bb["count"], Aa["vals"][:k] + Bb["vals"]
+                else:
+                    exp_count, exp_vals = Aa["count"], Aa["vals"]
+                if W["count"] != exp_count or W["vals"][:qw[3]] != exp_vals[:qw[3]]:
+                    key = "getdata/window-split-dependence/%s" % c.fields[[f[0] for f in c.fields].index(qw[0])][1]
+                    if key not in seen_keys:
+                        seen_keys[key] = 1
+                        chk.violation(key, "gd_getdata(%s, first_sample=%d, n=%d) = %d %s, but read as [%d,+%d) and [%d,+%d) it is %d %s: a sample depends on where the window starts\n%s" % (
+                            qw[0], qw[2], qw[3], W["count"], W["vals"][:10], qa[2], qa[3], qb[2], qb[3], exp_count, exp_vals[:10], c.format_text()),
+                            replay_of(c, qw, W, {"err": False, "count": exp_count, "vals": exp_vals}, {"count": exp_count, "vals": exp_vals}, tw))
         for (q, im, model, spec, tags) in getattr(c, "res", []):
             n = q[3]
             stats["queries"] += 1
+            # clauses that the theorem for the current flags (read_matches_spec_current) rules out
+            imposs = [t for t in tags if (t == "unaligned" and VARIANT.split()[0] == "1") or
+                      (t == "alloczero" and (VARIANT.split()[2] == "1" or (VARIANT.split()[0] == "1" and n != 0)))]
+            if imposs and "proof/clause" not in seen_keys:
+                seen_keys["proof/clause"] = 1
+                chk.violation("proof/clause-impossible-under-current-flags", "the extracted `uncovered` reports %s although the source variant is %s" % (imposs, VARIANT),
+                              replay_of(c, q, im, model, spec, tags), found=False)
             if im.get("crash"):
                 stats["crashes"] = stats.get("crashes", 0) + 1
                 key = "getdata/crash/%s" % ("covered" if not tags else ",".join(tags))
@@ -672,7 +713,7 @@ def witness_cases(rng):
             c.files[name] = b"".join(struct.pack("<d", v) for v in vals)
         c.drv = ["reset", "def INDEX index"] + drv
         c.qs = qs
-        c.fields = [(q[0], "witness", 1, 1, False, False) for q in qs]
+        c.fields = [(q[0], "witness", 1, 1, False, False, False, False) for q in qs]
         c.raws = []
         return c
     h = lambda vals: " ".join("%x" % dbits(v) for v in vals)
